@@ -77,6 +77,10 @@ func (q Q) key() string {
 
 func genC04(t *rapid.T) c04Case {
 	m := genNetModel(t, modelOpts{})
+	if chance(t, "non-ascii-capital-pattern", 10) && !isRegexText(m.Pat) {
+		// a capital letter outside ASCII, spelled the same way in the pattern and in the addresses
+		m.Pat = pick(t, "nac-pat", []string{"/Äpfel/x", "||example.org/Äpfel", "РЕКЛАМА", "/Äpfel/*"})
+	}
 	if wideMask(m.Pat) && !m.hasRestriction() {
 		m.DPerm = []string{"example.org"}
 	}
